@@ -27,6 +27,19 @@ func vhC25Handles() {
 	s := &Server{NoDefaultDate: true, NoDefaultServerHeader: true, Handler: h}
 	N := vLen("requests", 1, vParam("requests", 2))
 	bodiesOK := true
+	// the cleaner may also be stopped while a (slow) response is being read —
+	// possibly after the cleaner has already evicted the file under it
+	stopped := false
+	if at := vChoose("stopWhileServing", 3); at > 0 {
+		d := [...]time.Duration{0, 1200 * time.Millisecond, 2 * time.Second}[at]
+		go func() {
+			time.Sleep(d)
+			if !stopped {
+				stopped = true
+				close(stop)
+			}
+		}()
+	}
 	for i := 0; i < N; i++ {
 		target := [...]string{"/a.bin", "/b.bin", "/missing", "/d"}[vChoose("target", 4)]
 		method := "GET"
@@ -50,7 +63,10 @@ func vhC25Handles() {
 		}
 		time.Sleep(c25Delays[vChoose("gap", vParam("delayKinds", 3))])
 	}
-	close(stop)
+	if !stopped {
+		stopped = true
+		close(stop)
+	}
 	time.Sleep(50 * time.Millisecond) // let the cleaner goroutine take the stop and release what is left
 	// the handler stays usable after the cleaner was stopped: two more
 	// requests for the same file
